@@ -118,7 +118,8 @@ def h2prop(modules, view, outs, alarms, extra_assume=()):
 PROPS.update({
     "C01": h2prop(["TurnModel.Props.C01"], ["m:send", "m:cdata", "m:perm", "m:bind", "m:connect", "state"],
                   ["topeer", "dial"], []),
-    "C02": h2prop(["TurnModel.Props.C02"], ["pdata", "pconn", "state"], ["dind", "cdat", "catt", "cclosed"], []),
+    "C02": dict(h2prop(["TurnModel.Props.C02"], ["pdata", "pconn", "state"], ["dind", "cdat", "catt", "cclosed"], ["expired-entry-still-authorises", "h12-setup"]),
+                harnesses=["H2", "H12"]),
     "C03": dict(h2prop(["TurnModel.Props.C03", "TurnModel.Props.C03Nonce"],
                        ["m:alloc", "m:refresh", "m:perm", "m:bind", "m:connect", "m:cbind", "state", "snv", "lnv"],
                        ["resp"], ["nonce-window", "nonce-foreign-accepted", "nonce-key-not-random", "unsigned-attribute-honoured"],
